@@ -45,7 +45,18 @@ let handler r =
         let xd = num r in let fd = num r in let rows = table r in
         let o = unres (construct_rows fops rows xd fd) in
         queries1 r o (scaled xd (List.map (fun row -> match row with x :: _ -> x | [] -> 0.0) rows))
-    | "t2" ->
+    | "t3" ->
+        (* the data-table constructor; only I queries (the case generator expands cells itself) *)
+        let xd = num r in let yd = num r in let fd = num r in let rows = table r in
+        let o = unres (construct2_table fops rows xd yd fd) in
+        let nq = integer r in
+        for _ = 1 to nq do
+          match word r with
+          | "I" -> let x = num r in let y = num r in put_f (unres (interpolate2 fops o x y))
+          | q -> failwith ("unknown query " ^ q)
+        done
+    | "t2" | "h2" ->
+        (* h2: all queries on one live object; the model is the fresh-object semantics *)
         let xd = num r in let yd = num r in let fd = num r in
         let xs = list r in let ys = list r in let f = table r in
         let o = unres (construct2 fops xs ys f xd yd fd) in
